@@ -22,10 +22,10 @@
 EXTENDS Naturals, Sequences, FiniteSets, TLC
 
 CONSTANTS
-  Prog,      \* <<step descriptor>>; see MC modules.  Prog[1] is run()
-  OutMissing,\* TRUE: the output spec has a required port the program never emits (FINISHED downgrade)
+  Progs,     \* <<[name, steps, outMissing]>>: the program family; steps[1] is run(); one program per behaviour
+             \* outMissing: the output spec has a required port the program never emits (FINISHED downgrade)
+  Plans,     \* <<plan>>, plan = <<[hook, occ, req, arg]>>: what user code does at the occ-th occurrence of a hook
   Fixes,     \* set of repair identifiers that the implementation under test contains
-  Plan,      \* <<[hook, occ, req, arg]>>: what user code does at the occ-th occurrence of a hook
   Alphabet,  \* environment request kinds on offer
   K          \* environment request budget
 
@@ -70,31 +70,55 @@ Wake(s, on) == IF s.task.pc = on /\ ~s.task.woken
 (* ----------------------------------------------------------------------------------------------- *)
 (* user code at hook points                                                                        *)
 (* ----------------------------------------------------------------------------------------------- *)
-PlanHooks == {Plan[i].hook : i \in 1..Len(Plan)}
-Occ(s, name) == IF name \in PlanHooks THEN s.occ[name] ELSE 0
+\* the program and the plan of a behaviour are chosen in Init and recorded in the state
+Prog(s) == Progs[s.pi].steps
+Plan(s) == Plans[s.pl]
+PlanHooks == UNION {{Plans[j][i].hook : i \in 1..Len(Plans[j])} : j \in 1..Len(Plans)}
 
 RECURSIVE TransitionTo(_, _), Kill(_, _), Pause(_, _), Play(_), Resume(_, _), Hook(_, _)
 
-NoteCall(r, name, arg, where) ==          \* a control call and its outcome, as the caller saw it
-  Note(r.s, <<"call", name, arg, r.ret, r.exc, where>>)
+\* A control call together with what its caller saw and the monitors of C04/C05/C06.
+\* (monitors only observe: they never influence behaviour)
+CallKill(s, text, where) ==
+  LET r   == Kill(s, text)
+      acc == s.st \in Live                 \* kill() on a process that has not terminated
+      s1  == Note(r.s, <<"call", "kill", text, r.ret, r.exc, where>>)
+  IN [s1 EXCEPT !.mon.killAcc = @ \/ acc,
+                !.mon.killTexts = IF acc THEN @ \cup {text} ELSE @,
+                !.bad = IF acc /\ r.exc # NoExc THEN @ \cup {"killRaised"} ELSE @]
 
-KillAccepted(s0, r) == s0.st \in Live /\ (r.exc # NoExc \/ r.ret # "False")
+CallPause(s, text, where) ==
+  LET r  == Pause(s, text)
+      s1 == Note(r.s, <<"call", "pause", text, r.ret, r.exc, where>>)
+  IN [s1 EXCEPT !.mon.lastPlay = FALSE,
+                !.bad = IF r.exc # NoExc THEN @ \cup {"pauseRaised"} ELSE @]
+
+CallPlay(s, where) ==
+  LET r  == Play(s)
+      s1 == Note(r.s, <<"call", "play", None, r.ret, r.exc, where>>)
+  IN [s1 EXCEPT !.mon.lastPlay = TRUE,
+                !.bad = (IF r.exc # NoExc THEN @ \cup {"playRaised"} ELSE @)
+                        \cup (IF r.exc = NoExc /\ r.s.pausedF # "none" THEN {"playLeftPaused"} ELSE {})]
+
+CallResume(s, v, where) ==
+  LET r  == Resume(s, v)
+      s1 == Note(r.s, <<"call", "resume", v, r.ret, r.exc, where>>)
+      first == s.st = "WAITING" /\ ~s.mon.resumed
+  IN [s1 EXCEPT !.mon.resumed = @ \/ (s.st = "WAITING"),
+                !.mon.resumeVal = IF first THEN v ELSE @]
 
 Hook(s, name) ==
   IF name \notin PlanHooks THEN Ok(s, None)
   ELSE LET k  == s.occ[name] + 1
            s1 == [s EXCEPT !.occ[name] = k]
-           hit == {i \in 1..Len(Plan) : Plan[i].hook = name /\ Plan[i].occ = k}
+           hit == {i \in 1..Len(Plan(s)) : Plan(s)[i].hook = name /\ Plan(s)[i].occ = k}
        IN IF hit = {} THEN Ok(s1, None)
-          ELSE LET p == Plan[CHOOSE i \in hit : TRUE] IN
+          ELSE LET p == Plan(s)[CHOOSE i \in hit : TRUE] IN
             CASE p.req = "fault"  -> Err(Note(s1, <<"fault", name, k, p.arg>>), p.arg)
-              [] p.req = "kill"   -> LET r == Kill(s1, p.arg)
-                                     IN Ok([NoteCall(r, "kill", p.arg, name) EXCEPT
-                                              !.mon.killAcc = @ \/ KillAccepted(s1, r),
-                                              !.mon.reKill = TRUE], None)
-              [] p.req = "pause"  -> Ok(NoteCall(Pause(s1, p.arg), "pause", p.arg, name), None)
-              [] p.req = "play"   -> Ok(NoteCall(Play(s1), "play", None, name), None)
-              [] p.req = "resume" -> Ok(NoteCall(Resume(s1, p.arg), "resume", p.arg, name), None)
+              [] p.req = "kill"   -> Ok(CallKill(s1, p.arg, name), None)
+              [] p.req = "pause"  -> Ok(CallPause(s1, p.arg, name), None)
+              [] p.req = "play"   -> Ok(CallPlay(s1, name), None)
+              [] p.req = "resume" -> Ok(CallResume(s1, p.arg, name), None)
               [] OTHER            -> Ok(s1, None)
 
 \* EventHelper.fire_event: listener exceptions are logged and swallowed
@@ -107,14 +131,15 @@ Listeners(s, evt, arg) ==
 (* the process future                                                                              *)
 (* ----------------------------------------------------------------------------------------------- *)
 FutSet(s, kind, v) ==
-  IF s.fut.st # "pending" THEN Err(s, "InvalidStateError")
+  IF s.fut.st # "pending"                 \* known finding D9: a future cancelled by the user cannot be resolved
+  THEN Err(IF s.fut.st = "cancelled" THEN Dev(s, "D9") ELSE s, "InvalidStateError")
   ELSE Ok([s EXCEPT !.fut = [st |-> kind, val |-> v]], None)
 
 (* ----------------------------------------------------------------------------------------------- *)
 (* Process.on_entering / on_entered / on_exiting / on_terminated                                   *)
 (* ----------------------------------------------------------------------------------------------- *)
 OnFinish(s, new) ==                       \* Process.on_finish(result, successful)
-  IF new.succ /\ OutMissing
+  IF new.succ /\ Progs[s.pi].outMissing
   THEN [s |-> s, ret |-> None, exc |-> "StateEntryFailed"]
   ELSE Then(FutSet(s, "result", s.outputs), LAMBDA t : Hook(t, "on_finish"))
 
@@ -161,9 +186,11 @@ OnExiting(s) ==
 \* Process.on_terminated -> close() -> on_close: cleanups (exceptions swallowed), callbacks dropped
 OnTerminated(s) ==
   IF s.closed THEN Ok(s, None)
-  ELSE LET c  == Hook(s, "cleanup")          \* a raising cleanup is logged and swallowed
-           s1 == [Note(c.s, <<"cleanup">>) EXCEPT !.closed = TRUE, !.cleaned = @ + 1]
-           s2 == IF "F7" \in Fixes THEN Wake(Wake(s1, "awaitPaused"), "awaitWF") ELSE s1
+  ELSE LET c  == Hook(Note(s, <<"cleanup">>), "cleanup")     \* a raising cleanup is logged and swallowed
+           s1 == [c.s EXCEPT !.closed = TRUE, !.cleaned = @ + 1]
+           blocked == s1.task.pc \in {"awaitPaused", "awaitWF"} /\ ~s1.task.woken
+           s2 == IF "F7" \in Fixes THEN Wake(Wake(s1, "awaitPaused"), "awaitWF")
+                 ELSE IF blocked THEN Dev(s1, "D7") ELSE s1
        IN Hook(s2, "on_close")
 
 (* ----------------------------------------------------------------------------------------------- *)
@@ -182,6 +209,7 @@ EnterNext(s, new) ==                      \* _enter_next_state
      LET s1 == [a.s EXCEPT !.st = new.label, !.cur = new,
                            !.wf = IF new.label = "WAITING" THEN [st |-> "pending", val |-> None, cookie |-> 0] ELSE @,
                            !.keep = IF new.label = "WAITING" THEN None ELSE @,
+                           !.mon.resumed = IF new.label = "WAITING" THEN FALSE ELSE @,
                            !.bad = IF last \in Terminal THEN @ \cup {"leftTerminal"} ELSE @]
      IN IF s1.closed THEN Ok(s1, None)
         ELSE Then(OnEntered(s1), LAMBDA t : Hook(Note(t, <<"enter", last, new.label>>), "cb_entered"))
@@ -212,7 +240,8 @@ TransitionTo(s, new) ==
           ELSE LET s1 == [r.s EXCEPT !.transitioning = FALSE] IN
                IF s1.failing THEN Err(Finally(s1), r.exc)
                ELSE \* Process.transition_failed: while creating re-raise, otherwise go to EXCEPTED
-                    LET f == TransitionTo([s1 EXCEPT !.failing = TRUE], Excepted(r.exc))
+                    LET s2 == IF init \in Terminal THEN Dev(s1, "D1") ELSE s1
+                        f  == TransitionTo([s2 EXCEPT !.failing = TRUE], Excepted(r.exc))
                     IN [f EXCEPT !.s = Finally(f.s)]
 
 (* ----------------------------------------------------------------------------------------------- *)
@@ -223,12 +252,15 @@ NewAct(s, kind, text, cookie) ==
   [s EXCEPT !.acts = Append(@, [kind |-> kind, text |-> text, status |-> "pending",
                                 cookie |-> IF cookie = 0 THEN a ELSE cookie])]
 CancelAct(s, a) == IF a # 0 /\ s.acts[a].status = "pending" THEN [s EXCEPT !.acts[a].status = "cancelled"] ELSE s
-SetIntr(s, a)   == [CancelAct(s, s.intr) EXCEPT !.intr = a]      \* _set_interrupt_action
+SetIntr(s, a)   ==                                                \* _set_interrupt_action
+  LET lost == s.intr # 0 /\ s.acts[s.intr].status = "pending" /\ s.acts[s.intr].kind = "kill"
+      s1   == IF lost THEN Dev(s, "D3") ELSE s                    \* known finding: a pending kill is dropped
+  IN [CancelAct(s1, s.intr) EXCEPT !.intr = a]
 
 Interrupt(s, a) ==                        \* self._state.interrupt(exception): only Waiting reacts
   IF s.st # "WAITING" THEN Ok(s, None)
   ELSE IF s.wf.st # "pending"
-       THEN (IF "F1" \in Fixes THEN Ok(s, None) ELSE Err(s, "InvalidStateError"))
+       THEN (IF "F1" \in Fixes THEN Ok(s, None) ELSE Err(Dev(s, "D2"), "InvalidStateError"))
   ELSE Ok(Wake([s EXCEPT !.wf = [st |-> "exc", val |-> None, cookie |-> a]], "awaitWF"), None)
 
 KillText(t) == t
@@ -279,7 +311,7 @@ Play(s) ==
 
 Resume(s, v) ==                           \* @event(from_states=Waiting); Waiting.resume
   IF s.st # "WAITING" THEN Err(s, "EventError")
-  ELSE IF s.wf.st # "pending" THEN Ok(s, None)
+  ELSE IF s.wf.st # "pending" THEN Ok(IF s.wf.st = "exc" THEN Dev(s, "D5") ELSE s, None)
   ELSE Ok(Wake([s EXCEPT !.wf = [st |-> "result", val |-> v, cookie |-> 0]], "awaitWF"), None)
 
 Fail(s, e) ==                             \* @event(to_states=Excepted)
@@ -293,7 +325,8 @@ CallbackExcepted(s, e) ==                 \* Process.callback_excepted
 RunAction(s, a, next) ==
   IF s.acts[a].status # "pending" THEN Err(s, "InvalidStateError")
   ELSE LET r == IF s.acts[a].kind = "pause" THEN DoPause(s, s.acts[a].text, next)
-                ELSE LET t == TransitionTo(s, Killed(s.acts[a].text)) IN [t EXCEPT !.s.killing = 0]
+                ELSE LET s0 == IF next.label = "EXCEPTED" THEN Dev(s, "D8") ELSE s
+                         t  == TransitionTo(s0, Killed(s.acts[a].text)) IN [t EXCEPT !.s.killing = 0]
        IN IF r.exc = NoExc THEN Ok([r.s EXCEPT !.acts[a].status = "done"], None)
           ELSE Ok([r.s EXCEPT !.acts[a].status = "failed:" \o r.exc], None)
 
@@ -317,7 +350,7 @@ AfterExec(s, o) ==                        \* the rest of step() once execute ret
   LET s1 == IF o.kind = "interruption"
             THEN IF s.intr # 0 /\ s.acts[s.intr].cookie = o.cookie THEN s
                  ELSE LET k  == s.acts[o.cookie]
-                          s0 == NewAct(s, k.kind, k.text, o.cookie)
+                          s0 == NewAct(IF k.status = "cancelled" THEN Dev(s, "D4") ELSE s, k.kind, k.text, o.cookie)
                       IN SetIntr(s0, Len(s0.acts))
             ELSE s
       nx == IF o.kind = "state" THEN o.next ELSE NoState
@@ -335,14 +368,23 @@ EmitAll(s, emits) ==
 
 \* the body of a user step function: log, status, outputs, planned re-entrant requests
 StepBody(s, fn) ==
-  LET d  == Prog[fn]
-      s1 == Note([s EXCEPT !.task.fn = fn],
-                 <<"step", fn, s.cur.args, s.cur.kw, s.pausedF # "none", s.status>>)
+  LET d  == Prog(s)[fn]
+      got == <<fn, s.cur.args, s.cur.kw>>
+      rv  == s.mon.resumeVal
+      s0 == [s EXCEPT !.task.fn = fn, !.mon.expect = <<>>, !.mon.resumeVal = None,
+                      !.bad = (IF s.mon.expect # <<>> /\ s.mon.expect # got THEN @ \cup {"wrongContinuation"} ELSE @)
+                              \cup (IF rv # None /\ s.cur.args # (IF rv = "NULL" THEN <<>> ELSE <<rv>>)
+                                    THEN {"wrongResumeValue"} ELSE {})
+                              \cup (IF s.pausedF # "none" THEN {"stepWhilePaused"} ELSE {})]
+      s1 == Note(s0, <<"step", fn, s.cur.args, s.cur.kw, s.pausedF # "none", s.status>>)
       s2 == IF d.status # None THEN [s1 EXCEPT !.status = d.status] ELSE s1
       s3 == EmitAll(s2, d.emits)
   IN Hook(s3, "step")
 
-StepReturn(s, fn) == [kind |-> "state", next |-> Commanded(Prog[fn], <<>>)]
+StepReturn(s, fn) == [kind |-> "state", next |-> Commanded(Prog(s)[fn], <<>>)]
+\* C13 monitor: what the next step must receive according to the command that was returned
+Expecting(s, fn) == IF Prog(s)[fn].cmd = "continue"
+                    THEN [s EXCEPT !.mon.expect = <<Prog(s)[fn].next, Prog(s)[fn].args, Prog(s)[fn].kw>>] ELSE s
 
 Advance(s) ==
   CASE s.task.pc = "top" ->               \* while not self.has_terminated(): await self.step()
@@ -357,8 +399,8 @@ Advance(s) ==
                     b  == StepBody(s, fn)
                 IN IF b.exc # NoExc                                    \* user code raised: EXCEPTED *state*
                    THEN AfterExec(b.s, [kind |-> "state", next |-> Excepted(b.exc)])
-                   ELSE IF Prog[fn].kind = "sync" THEN AfterExec(b.s, StepReturn(b.s, fn))
-                   ELSE [b.s EXCEPT !.task.pc = "inUser", !.task.k = Prog[fn].n, !.sched = Append(@, "task")]
+                   ELSE IF Prog(s)[fn].kind = "sync" THEN AfterExec(Expecting(b.s, fn), StepReturn(b.s, fn))
+                   ELSE [b.s EXCEPT !.task.pc = "inUser", !.task.k = Prog(s)[fn].n, !.sched = Append(@, "task")]
            [] s.st = "WAITING" ->
                 IF s.wf.st = "pending" THEN [s EXCEPT !.task.pc = "awaitWF", !.task.woken = FALSE, !.task.wfn = s.cur.fn]
                 ELSE IF s.wf.st = "result"
@@ -369,8 +411,10 @@ Advance(s) ==
            [] OTHER -> AfterExec(s, [kind |-> "state", next |-> NoState])   \* terminal state objects: execute() is None
     [] s.task.pc = "inUser" ->
          IF s.task.k > 1 THEN [s EXCEPT !.task.k = @ - 1, !.sched = Append(@, "task")]
-         ELSE AfterExec(s, StepReturn(s, s.task.fn))
-    [] s.task.pc = "awaitPaused" -> Advance([s EXCEPT !.stepping = TRUE, !.task.pc = "exec"])
+         ELSE AfterExec(Expecting(s, s.task.fn), StepReturn(s, s.task.fn))
+    [] s.task.pc = "awaitPaused" ->       \* the gate is an `if`: a pause issued after the play is not seen
+         IF "F8" \in Fixes THEN Advance([s EXCEPT !.task.pc = "top"])
+         ELSE Advance([(IF s.pausedF # "none" THEN Dev(s, "D6") ELSE s) EXCEPT !.stepping = TRUE, !.task.pc = "exec"])
     [] s.task.pc = "awaitWF" ->           \* continues inside the *old* Waiting.execute
          IF s.wf.st = "result"
          THEN AfterExec(s, [kind |-> "state",
@@ -382,8 +426,8 @@ Advance(s) ==
 (* ----------------------------------------------------------------------------------------------- *)
 (* specification                                                                                   *)
 (* ----------------------------------------------------------------------------------------------- *)
-InitS ==
-  [st |-> "CREATED", cur |-> NewState("CREATED", 1, <<>>, <<>>, None, FALSE),
+InitS(pi, pl) ==
+  [pi |-> pi, pl |-> pl, st |-> "CREATED", cur |-> NewState("CREATED", 1, <<>>, <<>>, None, FALSE),
    stepping |-> FALSE, transitioning |-> FALSE, failing |-> FALSE,
    pausedF |-> "none", status |-> None, preStatus |-> None,
    acts |-> <<>>, pausing |-> 0, killing |-> 0, intr |-> 0,
@@ -393,57 +437,55 @@ InitS ==
    task |-> [pc |-> "top", k |-> 0, fn |-> 0, wfn |-> 0, woken |-> FALSE, err |-> None],
    sched |-> <<>>, occ |-> [h \in PlanHooks |-> 0],
    log |-> <<>>, bad |-> {}, dev |-> {},
-   mon |-> [killAcc |-> FALSE, reKill |-> FALSE, resumed |-> FALSE, lastPlay |-> FALSE]]
+   mon |-> [killAcc |-> FALSE, killTexts |-> {}, cancelled |-> FALSE, lastPlay |-> FALSE,
+            resumed |-> FALSE, resumeVal |-> None, expect |-> <<>>]]
 
-Init == S = InitS /\ ready = <<"task">> /\ budget = K
+Init == /\ \E pi \in 1..Len(Progs), pl \in 1..Len(Plans) : S = InitS(pi, pl)
+        /\ ready = <<"task">> /\ budget = K
 
 Flush(s) == [s EXCEPT !.sched = <<>>]
 Commit(s) == S' = Flush(s) /\ ready' = ready \o s.sched /\ budget' = budget - 1
 
-EnvKill(text) ==
-  /\ "kill" \in Alphabet /\ budget > 0
-  /\ LET r  == Kill(S, text)
-         s1 == [NoteCall(r, "kill", text, "env") EXCEPT !.mon.killAcc = @ \/ KillAccepted(S, r)]
-     IN Commit(s1)
-EnvPause(text) ==
-  /\ "pause" \in Alphabet /\ budget > 0
-  /\ Commit([NoteCall(Pause(S, text), "pause", text, "env") EXCEPT !.mon.lastPlay = FALSE])
-EnvPlay ==
-  /\ "play" \in Alphabet /\ budget > 0
-  /\ Commit([NoteCall(Play(S), "play", None, "env") EXCEPT !.mon.lastPlay = TRUE])
-EnvResume(v) ==
-  /\ "resume" \in Alphabet /\ budget > 0
-  /\ LET r == Resume(S, v)
-     IN Commit([NoteCall(r, "resume", v, "env") EXCEPT !.mon.resumed = @ \/ (S.st = "WAITING")])
+EnvKill(text) == "kill" \in Alphabet /\ budget > 0 /\ Commit(CallKill(S, text, "env"))
+EnvPause(text) == "pause" \in Alphabet /\ budget > 0 /\ Commit(CallPause(S, text, "env"))
+EnvPlay == "play" \in Alphabet /\ budget > 0 /\ Commit(CallPlay(S, "env"))
+EnvResume(v) == "resume" \in Alphabet /\ budget > 0 /\ Commit(CallResume(S, v, "env"))
 EnvFail ==
   /\ "fail" \in Alphabet /\ budget > 0
-  /\ Commit(NoteCall(Fail(S, "F"), "fail", "F", "env"))
+  /\ LET r == Fail(S, "F") IN Commit(Note(r.s, <<"call", "fail", "F", r.ret, r.exc, "env">>))
 EnvCancel ==                               \* process.future().cancel()
   /\ "cancel" \in Alphabet /\ budget > 0 /\ S.fut.st = "pending"
-  /\ S' = Note([S EXCEPT !.fut = [st |-> "cancelled", val |-> None]], <<"cancel">>)
+  /\ S' = Note([S EXCEPT !.fut = [st |-> "cancelled", val |-> None],
+                         !.mon.killAcc = @ \/ (S.st \in Live),
+                         !.mon.killTexts = @ \cup {"Killed by future being cancelled"},
+                         !.mon.cancelled = TRUE], <<"cancel">>)
   /\ ready' = Append(ready, "trykill") /\ budget' = budget - 1
 EnvCallSoon(kind) ==                       \* process.call_soon(callback); kind: "ok" | "raise"
   /\ ("cb" \o kind) \in Alphabet /\ budget > 0
   /\ S' = Note(S, <<"callsoon", kind>>) /\ ready' = Append(ready, "cb" \o kind) /\ budget' = budget - 1
 
+\* one event-loop callback
+Handle(s, h) ==
+  CASE h = "task" -> Advance(s)
+    [] h = "cbok" -> Note(s, <<"cb", "ok">>)
+    [] h = "cbraise" -> LET c == CallbackExcepted(Note(s, <<"cb", "raise">>), "CB")
+                        IN IF c.exc # NoExc THEN Note(c.s, <<"cbtaskfailed", c.exc>>) ELSE c.s
+    [] h = "trykill" -> Kill(s, "Killed by future being cancelled").s      \* try_killing on the cancelled future
+
 RunHandle ==
   /\ ready # <<>>
-  /\ LET h  == Head(ready)
-         s1 == CASE h = "task" -> Advance(S)
-                 [] h = "cbok" -> Note(S, <<"cb", "ok">>)
-                 [] h = "cbraise" -> LET c == CallbackExcepted(Note(S, <<"cb", "raise">>), "CB")
-                                     IN IF c.exc # NoExc THEN Note(c.s, <<"cbtaskfailed", c.exc>>) ELSE c.s
-                 [] h = "trykill" ->       \* try_killing on the cancelled future
-                      LET r == Kill(S, "Killed by future being cancelled")
-                      IN [r.s EXCEPT !.mon.killAcc = @ \/ KillAccepted(S, r)]
-     IN S' = Flush(s1) /\ ready' = Tail(ready) \o s1.sched
+  /\ LET s1 == Handle(S, Head(ready)) IN S' = Flush(s1) /\ ready' = Tail(ready) \o s1.sched
   /\ UNCHANGED budget
 
+KillTexts   == {"k1"}
+PauseTexts  == {"p1"}
+ResumeVals  == {"v1"}
+
 Next ==
-  \/ \E t \in {"k1"} : EnvKill(t)
-  \/ \E t \in {"p1"} : EnvPause(t)
+  \/ \E t \in KillTexts : EnvKill(t)
+  \/ \E t \in PauseTexts : EnvPause(t)
   \/ EnvPlay
-  \/ \E v \in {"v1"} : EnvResume(v)
+  \/ \E v \in ResumeVals : EnvResume(v)
   \/ EnvFail
   \/ EnvCancel
   \/ EnvCallSoon("ok") \/ EnvCallSoon("raise")
